@@ -93,7 +93,8 @@ def gen_cases(ctx):
         up = upgrade_exchange(rng)
         s1 = H.gen_stream(rng, 99, body_sizes=[0, 7, 300], force=rng.choice(["plain", "grpc-status-only"]))
         s1["upgraded"] = True
-        case = H.build_h2_case(rng, streams, mode="h2c", upgrade=up, order=rng.choice(["cs", "cs", "sc"]))
+        # i = 0: witness of the repaired defect (response on stream 1 registered before the upgrade request)
+        case = H.build_h2_case(rng, streams, mode="h2c", upgrade=up, order="sc" if i == 0 else rng.choice(["cs", "cs", "sc"]))
         # the response to the upgraded request travels on stream 1 of the server half
         s1["sid"] = 1
         resp_ops = H.frames_of(rng, s1, "s", 1)
